@@ -11,12 +11,13 @@
  *   vasprintf(&p, fmt, va):        p = malloc(LEN+1) holding F and a NUL, returns LEN; FAIL=1: p = NULL, returns -1
  * (/repo HEAD calls only vasprintf; the vsnprintf model exists so that an implementation with a fixed-size first attempt
  * is decided instead of reported as "unmodelled external".)
- * Checked: size() == LEN and ONE symbolic index i < LEN with result[i] == F[i] (any wrong byte is some i). */
+ * Checked: size() == LEN and ONE symbolic index i < LEN with result[i] == F[i] (any wrong byte is some i); only size and that byte leave the wrapper. */
 #include <stdarg.h>
 #include <stdlib.h>
 #include "harness.h"
-int64_t w_string_printf(uint32_t arg, uint8_t* out, uint64_t cap);
-static uint8_t F[LEN + 8];
+int64_t w_string_printf_at(uint32_t arg, uint64_t idx, uint8_t* byte);
+static uint64_t W[LEN / 8 + 1]; /* F packed: F[i] = byte i%8 of W[i/8] */
+#define F(i) ((uint8_t)(W[(i) >> 3] >> (8 * ((i) & 7))))
 static uint32_t want_arg, calls, va_calls, bad_calls;
 static void see(const char* fmt, va_list va) {
   calls++;
@@ -42,7 +43,7 @@ uint32_t X_vasprintf(uint8_t* outp_, uint8_t* fmt_, uint8_t* va_) {
 #ifdef VERIF_CBMC
   __CPROVER_assume(buf != 0);
 #endif
-  for (int i = 0; i < LEN; i++) buf[i] = (char)F[i];
+  for (int i = 0; i < LEN; i++) buf[i] = (char)F(i);
   buf[LEN] = 0;
   *outp = buf;
   return LEN;
@@ -60,23 +61,20 @@ uint32_t X_vsnprintf(uint8_t* buf_, uint64_t size, uint8_t* fmt_, uint8_t* va_) 
   va_end(va);
   if (size > 0) {
     uint64_t k = (uint64_t)LEN < size - 1 ? (uint64_t)LEN : size - 1;
-    for (int i = 0; i < LEN; i++) if ((uint64_t)i < k) buf[i] = (char)F[i];
+    for (int i = 0; i < LEN; i++) if ((uint64_t)i < k) buf[i] = (char)F(i);
     buf[k] = 0;
   }
   return LEN;
 }
 void harness(void) {
-  static uint8_t out[LEN + 1];
   /* the decisive inputs first, then F packed 8 bytes per input word, LAST word first (the replay vector holds 512 words:
    * for LEN = 4097 the three words lost are F[0..23], not the bytes at the end) */
   uint64_t idx = in_range(0, LEN ? LEN - 1 : 0);
   uint32_t arg = in_u32();
-  for (int w = (LEN + 7) / 8 - 1; w >= 0; w--) {
-    uint64_t v = in_u64();
-    for (int b = 0; b < 8; b++) F[8 * w + b] = (uint8_t)(v >> (8 * b));
-  }
+  for (int w = (LEN + 7) / 8 - 1; w >= 0; w--) W[w] = in_u64();
   want_arg = arg;
-  int64_t r = w_string_printf(arg, out, LEN + 1);
+  uint8_t got = 0;
+  int64_t r = w_string_printf_at(arg, idx, &got);
   OBS(r);
   ASSERT(calls >= 1 && bad_calls == 0, "format and argument reach every formatter call unchanged, at least one call");
   ASSERT(va_calls <= 1, "at most one vasprintf call");
@@ -85,6 +83,7 @@ void harness(void) {
 #endif
   ASSERT(r == LEN, "result length == length returned by the formatter");
 #if LEN > 0
-  if (r == LEN) ASSERT(out[idx] == F[idx], "result bytes == bytes the formatter produced (embedded NULs kept, every position)");
+  OBS(got);
+  if (r == LEN) ASSERT(got == F(idx), "result bytes == bytes the formatter produced (embedded NULs kept, every position)");
 #endif
 }
